@@ -1,6 +1,7 @@
 package harness
 
 import (
+	"bytes"
 	"context"
 	"fmt"
 	"os"
@@ -91,7 +92,8 @@ type sim struct {
 	closed   [2]bool
 	sentMsgs [2][][]byte // messages for which Send was called on side x
 	sendOK   [2][]bool
-	recvMsgs [2][][]byte // messages returned by Recv on side x
+	recvMsgs [2][][]byte // messages returned by Recv on side x (copied at return time)
+	recvRaw  [2][][]byte // the very slices Recv returned, kept to see whether the library writes to them later
 	txCount  [2]int
 	wg       sync.WaitGroup
 	blockTx  [2]bool // the transport's send blocks until its context ends (under mu)
@@ -339,6 +341,7 @@ func (s *sim) recv(x int) {
 		s.recvBusy[x] = false
 		if err == nil {
 			s.recvMsgs[x] = append(s.recvMsgs[x], append([]byte{}, b...))
+			s.recvRaw[x] = append(s.recvRaw[x], b)
 		}
 		s.mu.Unlock()
 		if err != nil {
@@ -348,6 +351,19 @@ func (s *sim) recv(x int) {
 		}
 	}()
 	synctest.Wait()
+}
+
+// overwritten returns the index of the first message on side x whose returned slice no longer holds
+// what it held when Recv returned it (-1 if none).
+func (s *sim) overwritten(x int) int {
+	s.mu.Lock()
+	defer s.mu.Unlock()
+	for i := range s.recvRaw[x] {
+		if i < len(s.recvMsgs[x]) && !bytes.Equal(s.recvRaw[x][i], s.recvMsgs[x][i]) {
+			return i
+		}
+	}
+	return -1
 }
 
 func (s *sim) busy(x int) (bool, bool) {
